@@ -44,6 +44,29 @@ func TestVerifC10SM3(t *testing.T) {
 		if !bytes.Equal(one[:], digest) {
 			r.Violation("sm3-sumsm3-wrong-on-readonly-input", hk.D{"len": n})
 		}
+		// the message is the FRONT of a larger buffer (spare capacity behind it holds the caller's other data): neither
+		// the one-shot function nor Write may touch what lies behind the message
+		{
+			room := []int{1, 9, 64, 73, 200}[i%5]
+			bb := make([]byte, n+room)
+			copy(bb, data)
+			for j := n; j < len(bb); j++ {
+				bb[j] = byte(0xC3 ^ j)
+			}
+			snap := append([]byte{}, bb...)
+			d1 := SumSM3(bb[:n])
+			h2 := New()
+			h2.Write(bb[:n/3])
+			h2.Write(bb[n/3 : n])
+			d2 := h2.Sum(nil)
+			if !bytes.Equal(bb, snap) {
+				r.Violation("sm3-writes-into-the-spare-capacity-behind-its-message", hk.D{"len": n, "capacity": len(bb), "before": clipHex(snap[n:]), "after": clipHex(bb[n:])})
+			}
+			if !bytes.Equal(d1[:], digest) || !bytes.Equal(d2, digest) {
+				r.Violation("sm3-digest-wrong-for-message-with-spare-capacity", hk.D{"len": n, "capacity": len(bb)})
+			}
+			r.Eval(fmt.Sprintf("sm3|message-with-spare-capacity|room=%d", room))
+		}
 		for _, shape := range [][2]int{{0, 0}, {0, 32}, {0, 100}, {1, 1}, {5, 36}, {5, 37}, {5, 38}, {31, 31}, {33, 200}} {
 			backing := make([]byte, shape[1]+40)
 			for j := range backing {
@@ -65,9 +88,25 @@ func TestVerifC10SM3(t *testing.T) {
 			if !bytes.Equal(backing[cap(in):], snapshot[cap(in):]) {
 				r.Violation("sm3-sum-writes-beyond-capacity", hk.D{"len": shape[0], "cap": shape[1]})
 			}
+			// the APPEND rule, as the built-in append keeps it: with room for 32 more bytes the digest is written into the
+			// argument's own storage (h.Sum(buf[:0]) fills buf); without room the argument's storage is left alone
+			if in != nil && cap(in)-len(in) >= Size {
+				if &dst[0] != &backing[0] || !bytes.Equal(backing[len(in):len(in)+Size], digest) {
+					r.Violation("sm3-sum-does-not-append-into-the-spare-capacity-of-its-argument", hk.D{"len": shape[0], "cap": shape[1], "storage_after": hk.Hex(backing[:len(in)+Size]), "digest": hk.Hex(digest)})
+				}
+			} else if !bytes.Equal(backing[:cap(in)], snapshot[:cap(in)]) {
+				r.Violation("sm3-sum-writes-into-an-argument-without-room", hk.D{"len": shape[0], "cap": shape[1]})
+			}
 			r.Eval(fmt.Sprintf("sm3|sum|len=%d,cap=%d", shape[0], shape[1]))
 		}
 		pool.Put(g)
 	}
 	r.Sample(hk.D{"op": "Sum(in)", "shapes": "nil, len0/cap32, len5/cap36..38 (one short / exact / one spare), len=cap, large spare", "write_input": "PROT_READ pages"})
+}
+
+func clipHex(b []byte) string {
+	if len(b) > 96 {
+		b = b[:96]
+	}
+	return hk.Hex(b)
 }
